@@ -32,6 +32,7 @@ def nested_tar(i):
 
 def concretise(ms, rng, variant):
     members = []
+    salt = variant.get("salt", 0) + 16 * rng.randrange(1, 1 << 20)   # every archive has its own content: members of the same name in two archives differ
     for i, m in enumerate(ms):
         size = m["size"]
         if variant.get("big") and not m["dir"] and size:
@@ -44,12 +45,16 @@ def concretise(ms, rng, variant):
                 prefix = "p" * rng.choice([10, 100, 151, 152, 155])  # ustar prefix field (overlaps the visor offset field position)
             elif rng.random() < 0.6:
                 prefix = "v" * rng.choice([1, 10, 100, 150])         # a visor member whose path is split over name and prefix (ends before byte 496)
-        data = content(i, size, variant.get("salt", 0))
+        if variant.get("names"):
+            name = (rng.choice(NAME_POOL) % i) + (b"/" if m["dir"] else b"")
+        data = content(i, size, salt)
         if variant.get("nested") and not m["dir"] and not m["inline"]:
             data = nested_tar(i)
             size = len(data)
         mm = {"name": name, "visor": m["visor"], "dir": m["dir"], "size": size, "inline": m["inline"], "slot": m["slot"],
               "data": data, "prefix": prefix}
+        if variant.get("names") and not m["dir"]:
+            mm["hdr"] = {"linkname": rng.choice([b"", b"visor", b"visor  ", b"ustar", b"\xff"])}
         if variant.get("hdrwords") and m["visor"]:
             # header words next to the data offset that do not take part in locating the data
             mm["hdr"] = {"word500": rng.choice([0, 1, 0x1000, 0xFFFFFFFF]), "text_pgs": rng.choice([0, 3, 0xFFFF]), "fixup_pgs": rng.choice([0, 1, 0x10000])}
@@ -65,6 +70,12 @@ def concretise(ms, rng, variant):
             mm.update(ext_kind=kind, fullname=full, name=full[:100], prefix="", ext_visor=(m["visor"] and rng.random() < 0.3))
         members.append(mm)
     return members
+
+
+def _want_names(members):
+    def _s(x):   # names are decoded as the standard reader does (UTF-8, undecodable bytes as surrogate escapes)
+        return x.decode("utf-8", "surrogateescape") if isinstance(x, bytes) else x
+    return [m["fullname"].rstrip("/") if m.get("ext_kind") else (m["prefix"] + "/" if m["prefix"] else "") + _s(m["name"]).rstrip("/") for m in members]
 
 
 def check_archive(ctx, ms, members, blob, variant, attrs):
@@ -87,23 +98,34 @@ def check_archive(ctx, ms, members, blob, variant, attrs):
         except Exception as e:  # noqa: BLE001
             ctx.violation({**attrs, "fail": "open-raised", "mode": mode, "exc": type(e).__name__}, {**det, "error": repr(e)[:300]})
             return False
-        want_names = [m["fullname"].rstrip("/") if m.get("ext_kind") else (m["prefix"] + "/" if m["prefix"] else "") + m["name"].rstrip("/") for m in members]
+        want_names = _want_names(members)
         if [g.name for g in got] != want_names:
             ctx.violation({**attrs, "fail": "listing", "mode": mode}, {**det, "want": want_names, "got": [g.name for g in got]})
             return False
         for g, m in zip(got, members):
             if g.isdir() != m["dir"] or (not m["dir"] and g.size != m["size"]):   # (the `is_visor` attribute is not part of the property)
-                ctx.violation({**attrs, "fail": "member-meta", "mode": mode}, {**det, "member": m["name"], "isdir": g.isdir(), "size": g.size})
+                ctx.violation({**attrs, "fail": "member-meta", "mode": mode}, {**det, "member": repr(m["name"]), "isdir": g.isdir(), "size": g.size})
                 return False
             if not m["dir"]:
                 try:
                     data = t.extractfile(g).read()
                 except Exception as e:  # noqa: BLE001
-                    ctx.violation({**attrs, "fail": "extract-raised", "mode": mode, "exc": type(e).__name__}, {**det, "member": m["name"], "error": repr(e)[:300]})
+                    ctx.violation({**attrs, "fail": "extract-raised", "mode": mode, "exc": type(e).__name__}, {**det, "member": repr(m["name"]), "error": repr(e)[:300]})
                     return False
                 if data != m["data"]:
-                    ctx.violation({**attrs, "fail": "extract-mismatch", "mode": mode}, {**det, "member": m["name"], "got_len": len(data), "want_len": len(m["data"])})
+                    ctx.violation({**attrs, "fail": "extract-mismatch", "mode": mode}, {**det, "member": repr(m["name"]), "got_len": len(data), "want_len": len(m["data"])})
                     return False
+                if want_names.count(g.name) == 1:
+                    # looked up by name (as extractall / getmember users do): the same member of *this* archive
+                    try:
+                        byname = t.extractfile(g.name).read()
+                        same = t.getmember(g.name) is g
+                    except Exception as e:  # noqa: BLE001
+                        ctx.violation({**attrs, "fail": "extract-raised", "mode": mode, "by": "name", "exc": type(e).__name__}, {**det, "member": repr(m["name"]), "error": repr(e)[:300]})
+                        return False
+                    if byname != m["data"] or not same:
+                        ctx.violation({**attrs, "fail": "extract-mismatch", "mode": mode, "by": "name"}, {**det, "member": repr(m["name"]), "got_len": len(byname), "want_len": len(m["data"])})
+                        return False
     # an ordinary tar archive behind other bytes in the same file, handed over as a file object positioned at its start, is
     # read from there (as the standard reader does).  Not done for gzip wrapping: the standard GzipFile rewinds the
     # underlying file to offset 0 on a backward seek, whoever calls it.
@@ -122,7 +144,7 @@ def check_archive(ctx, ms, members, blob, variant, attrs):
         except Exception as e:  # noqa: BLE001
             ctx.violation({**attrs, "fail": "open-raised", "mode": mode, "exc": type(e).__name__}, {**det, "error": repr(e)[:300]})
             return False
-        want_names = [m["fullname"].rstrip("/") if m.get("ext_kind") else (m["prefix"] + "/" if m["prefix"] else "") + m["name"].rstrip("/") for m in members]
+        want_names = _want_names(members)
         if names != want_names or datas != [None if m["dir"] else m["data"] for m in members]:
             ctx.violation({**attrs, "fail": "listing" if names != want_names else "extract-mismatch", "mode": mode}, {**det, "want": want_names, "got": names})
             return False
@@ -148,7 +170,12 @@ VARIANTS = [
     {"id": "header-words", "align": 512, "gap": 512, "hdrwords": True, "salt": 6},
     {"id": "header-words-unaligned", "align": 1, "gap": 3, "hdrwords": True, "salt": 8},
     {"id": "shared-data", "align": 512, "shared": True, "salt": 7},
+    # names that contain the words of the format (the magic strings live elsewhere in the header) or bytes that are not UTF-8, a link
+    # name field that is filled in on regular members
+    {"id": "names", "align": 512, "names": True, "salt": 9},
 ]
+NAME_POOL = [b"usr/lib/vmware/hypervisor/vmx%d.bin", b"etc/visor%d.conf", b"visor  %d", b"ustar%d", b"ustar  %d", b"caf\xe9-%d.bin", b"\xff\xfe%d", b"na\xc3\xafve %d.txt",
+             b"visor%d/visor  /ustar", b"%d visor  "]
 
 
 def huge_offsets(ctx):
